@@ -21,7 +21,7 @@ func init() {
 			`(R06.4 of the design, queue capacity, was dropped as not necessary.) ` +
 			`R05.3/R05.5/R05.6 (shared) the deviation table of the validator: the healer repairs what is reported. ` +
 			`R06.3 also: the FILE case returns without queueing only through the outcome files[idx] == true (a FILE wound is a file to re-make whatever its range). ` +
-			`R05.1 (shared) healthy verdict of the block validator only under index-in-range and strong-hash equality. NOT decided: that healed content equals the signed content, validator/healer interleavings, behaviour under cancellation.`,
+			`R05.1 (shared) healthy verdict of the block validator only under index-in-range and strong-hash equality. R06.8 in the archive healer's methods a plain os.Remove is reached only through the outcome !IsDir() of a look at the path (what may be a non-empty directory goes through RemoveAll, or is left to the pool). NOT decided: that healed content equals the signed content, validator/healer interleavings, behaviour under cancellation.`,
 		Assumptions: []string{"the healer's repair switch is the function literal in ArchiveHealer.Do that switches on wound.Kind"},
 		Run:         runC06,
 		Fixtures:    fixturesNoFollow,
@@ -37,6 +37,7 @@ func runC06(c *core.Ctx) {
 	ruleConsumerStartedFirst(c)
 	c.Rule("R06.6", "a queued file is copied whole from the archive into the target, for the same index")
 	ruleHiddenSubtrees(c, "R06.7")
+	ruleHealerRemovesWhatItSaw(c, "R06.8")
 	ruleDeviationTable(c, woundKinds(c.P))
 	c.Rule("R05.1", "healthy verdict only under index-in-range and strong-hash equality (shared)")
 	ruleHealthyVerdict(c, woundKinds(c.P), false)
